@@ -33,6 +33,13 @@ META = {
             "IORA_VERIF_YIELD(\"tp.enqueue.unlocked*\").",
 }
 
+# ---- additions of the translator / tie session
+META["text"] += (" Since C09-F29 (a worker that left before its creator had registered it stayed in _threads for ever; found through "
+                 "a seeding agent's observation, reproduced with the yield hook tp.spawn.created, repaired): the model's single step "
+                 "'created and registered' is tied to the source - coq/Gen/PoolShape.v (spawnWorker's lock / create / register order "
+                 "from clang's AST, regenerated every run) and C09/GenTie.v pool_generated_spawn_is_one_step. New scenarios: R (late "
+                 "registration through the hook) and I (submissions timed onto the idle timeout of the only worker, every task awaited).")
+
 
 def gen_scenario(rng):
     mn = rng.choice([0, 1, 2])
@@ -95,7 +102,11 @@ def run(ctx):
             shut = ["Z %d 6 1 1 shutdown" % zt, "Z %d 6 1 1 stop" % zt, "Z %d 4 0 3 shutdown" % zt, "Z %d 8 2 2 stop" % zt]
             # a running pool whose queue never fills refuses nothing (refusal reasons: full / draining / shut down only)
             never = ["N 6 %d" % (4000 if not thorough else 40000), "N 2 %d" % (4000 if not thorough else 40000)]
-            lines += stress + race + backlog + shut + never
+            # a worker that leaves on its idle timeout before its creator has registered it (yield hook tp.spawn.created)
+            latereg = ["R"] * (2 if not thorough else 10)
+            # submissions timed onto the idle timeout of the only worker (ThreadPool(0,1,1ms)); every task awaited
+            idle = ["I 4 %d" % (1200 if not thorough else 12000), "I 8 %d" % (600 if not thorough else 6000)]
+            lines += stress + race + backlog + shut + never + latereg + idle
             li, lm, _ = vlib.run_pair(ctx, impl_exe, model_exe, lines, "c09h", timeout=1800)
             nontrivial = 0
             disagree = 0
@@ -129,6 +140,22 @@ def run(ctx):
                     if ri != rm:
                         v.property_failure("shutdown-racing-submitters", "submitters racing %s(): %s (an accepted task never ran / its future "
                                            "is not ready / a task started after the call returned / tasks left queued)" % (line.split()[5], ri), line, ri)
+                    else:
+                        nontrivial += 1
+                    continue
+                if line.startswith("I "):
+                    if ri != rm:
+                        v.property_failure("accepted-task-stranded-at-idle-exit", "a task accepted while the only worker was leaving on its idle "
+                                           "timeout was not run (no worker took it, no replacement was spawned): %s" % ri, line, ri)
+                    else:
+                        nontrivial += 1
+                    continue
+                if line == "R":
+                    if ri != rm:
+                        v.property_failure("accepted-task-never-runs-after-late-registration", "a worker ran its task and left on its idle "
+                                           "timeout before the submitter that created it had registered it in _threads; the stale entry "
+                                           "counts as a worker for ever, so the next accepted task is never run while the pool keeps "
+                                           "running: %s" % ri, line, ri)
                     else:
                         nontrivial += 1
                     continue
